@@ -930,7 +930,9 @@ def sub_instances(ctx, prop):
         from ovsa.engine import Ctx as _Ctx
         mod = importlib.import_module("rules." + prop)
         sub = _Ctx(prop, ctx.prog, ctx.root, "quick")
-        mod.run(sub)
+        # the borrowed rules are the lending property's own (base) rules; its borrowed ones are not re-borrowed,
+        # which also keeps two properties that lend to each other from recursing
+        getattr(mod, "_run_base", mod.run)(sub)
         _SUB[key] = sub.instances
     return _SUB[key]
 
